@@ -84,6 +84,10 @@ static void set_class(int fd, int cls)
 }
 
 /* ------------------------------------------------------------------ plan */
+static char fakedev_name[128];
+static unsigned long fakedev_dev;
+static long fakedev_hits;
+
 int sim_io_plan(int argc, char **argv)
 {
 	if (!strcmp(argv[0], "watch") && argc >= 3) {
@@ -170,11 +174,16 @@ int sim_io_plan(int argc, char **argv)
 		return 0;
 	}
 	if (!strcmp(argv[0], "monitor_outmain") && argc >= 2) { monitor_outmain = atoi(argv[1]); return 0; }
+	if (!strcmp(argv[0], "fakedev") && argc >= 3) { snprintf(fakedev_name, sizeof(fakedev_name), "%s", argv[1]); fakedev_dev = strtoul(argv[2], NULL, 0); return 0; }
 	return 1;
 }
 
+static void fakedev_reset(void);
+static long fakedev_count(void);
+
 void sim_io_reset(void)
 {
+	fakedev_reset();
 	nfaults = nrates = ncorrupts = nwatches = 0;
 	memset(counters, 0, sizeof(counters));
 	memset(fired, 0, sizeof(fired));
@@ -208,6 +217,8 @@ void sim_io_report(void)
 	}
 	if (ncorrupts)
 		sim_trace("FC corrupt delivered %ld", corrupt_delivered);
+	if (fakedev_count())
+		sim_trace("FC fakedev applied %ld", fakedev_count());
 	if (journal_cls >= 0)
 		sim_trace("J ops %ld", journal_ops);
 }
@@ -699,6 +710,45 @@ int __wrap_ftruncate(int fd, off_t len)
 	return r;
 }
 
+/* ---- simulated mount point: every object whose path has a component named <fakedev_name> reports device <fakedev_dev>
+ *      (plan: fakedev <name> <dev>); the kernel's answer is used for everything else ---- */
+static void fakedev_reset(void) { fakedev_name[0] = 0; fakedev_dev = 0; fakedev_hits = 0; }
+static long fakedev_count(void) { return fakedev_hits; }
+
+static int path_has_component(const char *p, const char *name)
+{
+	size_t n = strlen(name);
+	while (*p) {
+		while (*p == '/') p++;
+		const char *e = p;
+		while (*e && *e != '/') e++;
+		if ((size_t)(e - p) == n && !memcmp(p, name, n))
+			return 1;
+		p = e;
+	}
+	return 0;
+}
+
+static void fakedev_apply(int dirfd, const char *path, struct stat *sb)
+{
+	char base[PATH_MAX], link[64];
+	if (!fakedev_name[0])
+		return;
+	base[0] = 0;
+	if (dirfd >= 0) {
+		snprintf(link, sizeof(link), "/proc/self/fd/%d", dirfd);
+		ssize_t n = readlink(link, base, sizeof(base) - 1);
+		base[n > 0 ? n : 0] = 0;
+	} else if (dirfd == AT_FDCWD && path && path[0] != '/') {
+		if (!getcwd(base, sizeof(base)))
+			base[0] = 0;
+	}
+	if (path_has_component(base, fakedev_name) || (path && strcmp(path, "..") && strcmp(path, ".") && path_has_component(path, fakedev_name))) {
+		sb->st_dev = fakedev_dev;
+		fakedev_hits++;
+	}
+}
+
 int __wrap_fstat(int fd, struct stat *sb)
 {
 	if (!sim_active)
@@ -709,6 +759,8 @@ int __wrap_fstat(int fd, struct stat *sb)
 	int r = __real_fstat(fd, sb);
 	if (r == 0 && truncsize[cls] >= 0 && sb->st_size > truncsize[cls])
 		sb->st_size = truncsize[cls];
+	if (r == 0)
+		fakedev_apply(fd, NULL, sb);
 	return r;
 }
 
@@ -718,7 +770,10 @@ int __wrap_fstatat(int dirfd, const char *path, struct stat *sb, int flags)
 		return __real_fstatat(dirfd, path, sb, flags);
 	int e = simple_fault(C_FSTATAT, CL_OTHER);
 	if (e) { errno = e; return -1; }
-	return __real_fstatat(dirfd, path, sb, flags);
+	int r = __real_fstatat(dirfd, path, sb, flags);
+	if (r == 0)
+		fakedev_apply(dirfd, path, sb);
+	return r;
 }
 
 int __wrap_fsync(int fd)
